@@ -22,6 +22,15 @@ CLAIMS = {
   "PutPlan and RemovePlan are proved: pairs/keys are the evaluated expressions (a value sees its own evaluated key), nothing is written before every expression has evaluated, exactly one storage call with the pairs in order is issued on success, none on failure, and polling a finished plan issues nothing.",
   TRUST + "Expression.Execute is assumed to be a function of expression and pair (interface contract); Put/BatchPut/Delete/BatchDelete semantics are A-STORE. Parser/validators for PUT and REMOVE are not yet under contract.",
   "DESIGN.md section 5, C12"),
+
+ "C18": ("proof",
+  "Planner tightness and scan confinement: each key-pinning atom yields exactly its documented scan type and literals, AND returns a region inside one operand's region, disjoint operands give EMPTY, Optimize() maps scan types to the matching plan kinds, and the row-mode scan plans are proved to read only keys of their region plus at most the key that ends it (MultiGetPlan: one Get per listed key; EmptyResultPlan: no storage call).",
+  TRUST + "Cursor behaviour (Seek to first key >= p, strictly ascending snapshot) is A-STORE. The per-construct statements compose to the property on paper. Batch forms of the scans are not yet under contract.",
+  "DESIGN.md section 5, C18"),
+ "C13": ("proof",
+  "Storage-error typestate and read-only frames: every storage/cursor operation requires that no earlier one failed and records a failure in ghost state; the plan functions under contract are proved to return that error unchanged, to issue no further storage call after it (precondition obligations at every call site), and - for scans, filter and limit plans - to have no mutating call in their frame.",
+  TRUST + "Covers the put/remove/delete plans, limit plans, row-mode scans, filter and buildDeletePlan; ProjectionPlan, FinalOrderPlan, AggregatePlan, batch-mode scans and buildPlan are not yet under contract for this property.",
+  "DESIGN.md section 5, C13"),
 }
 
 NA_PENDING = "not yet claimed in this session: the contracts for this property are still being written (see DESIGN.md section 5 for the plan)"
